@@ -67,6 +67,10 @@ func (o *simpleAccessController) GetAuthorizedByRole(role string) ([]string, err
 }
 
 func (o *simpleAccessController) CanAppend(e logac.LogEntry, _ identityprovider.Interface, _ accesscontroller.CanAppendAdditionalContext) error {
+	if err := accesscontroller.VerifyEntryIdentity(e); err != nil {
+		return fmt.Errorf("not allowed to write entry: %w", err)
+	}
+
 	for _, id := range o.allowedKeys["write"] {
 		if e.GetIdentity().ID == id || id == "*" {
 			return nil
